@@ -1,6 +1,6 @@
 PID = "C07"
 WORKER = "w_c07"
-HEADER = "From Coq Require Import List ZArith QArith Qcanon.\nFrom Dimod Require Import Base.Util Model.Poly Model.HPoly Model.Samples Model.Comb Model.Feas Model.Solve Model.ChkC07.\nImport ListNotations."
+HEADER = "From Coq Require Import List ZArith QArith Qcanon.\nFrom Dimod Require Import Base.Util Model.Poly Model.HPoly Model.Samples Model.Comb Model.Feas Model.Solve Model.Deferred Model.ParseInit Model.ChkC07.\nImport ListNotations."
 CHECK_FN = "check"
 N_QUICK = 960
 N_THOROUGH = 12000
@@ -10,12 +10,17 @@ RULE = ("random problems with <= 6 variables and dyadic biases (BQM via sample/s
         "binary polynomials via sample_poly/sample_hising/sample_hubo incl. constant terms, DQMs, CQMs with BINARY/SPIN/INTEGER "
         "variables, negative and non-integral bounds and constraints marked discrete whose variables also occur elsewhere) are run through stacks of the reference samplers "
         "(ExactSolver, ExactPolySolver, ExactDQMSolver, ExactCQMSolver, RandomSampler, SimulatedAnnealingSampler, IdentitySampler, "
-        "NullSampler, harness samplers implementing only sample_ising / only sample_qubo) and composites (Truncate, Tracking, "
+        "NullSampler, harness samplers implementing only sample_ising / only sample_qubo, stacked up to three deep, answering with plain sample sets "
+        "or with sample sets built on futures - pending / done concurrent Futures, future-likes with and without .done, explicit result hooks, "
+        "nonblocking_sample_method; the reference samplers and ExactPolySolver also behind a future) and composites (Truncate, Tracking, "
         "Structure, HigherOrder, PolyScale, PolyTruncate, PolyFixedVariable) with random options (n / sorted_by / aggregate, penalty_strength / "
         "keep_penalty_variables / discard_unsatisfied, scalar / bias_range / poly_range / ignored_terms, fixed_variables, initial states, label pools "
         "that are sortable or not); every layer's input and output "
         "is recorded; a case is non-trivial when the problem has at least one variable; distinct by canonical JSON of the case")
-TRUSTED = ["translator translators/exact_hoc_rules.py (fail-closed ast translation of exact_solver.py's domain constructions range(2) / [-1,1] / range(ceil(lb), floor(ub)+1) / range(num_cases), the bits->spins map, and HigherOrderComposite.sample_poly / polymorph_response defaults into Gen/Gen_ExactHoc.v; _graycode, _all_cases_cqm, _all_cases_dqm, ExactSolver.sample, penalty_satisfaction, polymorph_response pinned by shape)",
+TRUSTED = ["translator translators/sampleset_deferred.py (fail-closed ast translation of SampleSet.change_vartype's `not inplace` and `not self.done()` branches - which of (vartype, energy_offset) each recursive call forwards -, from_future's default hook, resolve, done, the resolving property getters, nonblocking_sample_method's wrapper and the last statement of Sampler.sample into Gen/Gen_Deferred.v)",
+           "model: coq/theories/Model/Deferred.v (future-backed sample sets), Model/ParseInit.v (parse_initial_states with infer_vartype, SimulatedAnnealingSampler's argument tests) - hand written, tied by this correspondence",
+           "harness futures LazyFuture / BareFuture / SetFuture and wrappers AsyncBase / AsyncPolyBase in harness/w_c07.py (a recorder hands a pending sample set on inside from_future(SetFuture) with the default hook: transparent for done() and for the resolved value, Proofs/DeferredFacts.v recorder_transparent)",
+           "translator translators/exact_hoc_rules.py (fail-closed ast translation of exact_solver.py's domain constructions range(2) / [-1,1] / range(ceil(lb), floor(ub)+1) / range(num_cases), the bits->spins map, and HigherOrderComposite.sample_poly / polymorph_response defaults into Gen/Gen_ExactHoc.v; _graycode, _all_cases_cqm, _all_cases_dqm, ExactSolver.sample, penalty_satisfaction, polymorph_response pinned by shape)",
            "translator translators/polyscale_rule.py (fail-closed ast translation of BinaryPolynomial.normalize/scale and PolyScaleComposite.sample_poly into Gen/Gen_PolyScale.v: initial extrema, length tests, update expressions, inv_scalar formula, scale factor, ratio scalar, un-scaling)",
            "model: coq/theories/Model/Solve.v, ChkC07.v, Comb.v, Poly.v, HPoly.v, Samples.v (hand written, tied by this correspondence)",
            "harness recorders Rec/PolyRec/IsingOnly/QuboOnly in harness/w_c07.py (snapshot what each layer received and returned)",
@@ -23,7 +28,8 @@ TRUSTED = ["translator translators/exact_hoc_rules.py (fail-closed ast translati
 ASSUMPTIONS = ["the coefficients a problem object reports define the submitted problem (C01)",
                "IEEE-754 arithmetic is exact on the small dyadic coefficients generated",
                "make_quadratic's reduction itself is C15's subject; here only the energies/labels of the returned sample set are decided against the submitted polynomial"]
-PARTIAL = ["RandomSampler / SimulatedAnnealingSampler / IdentitySampler('random'): WHICH rows the PRNG / annealing schedule produces is not modelled; everything else is (from_samples_bqm on the rows they returned, the conversion back from Ising with the offset, row count and the given states as prefix: C07_search_agnostic_energy, C07_sa_search_agnostic_energy, C07_identity_random_prefix) and is compared exactly on every returned set",
+PARTIAL = ["RandomSampler / SimulatedAnnealingSampler / IdentitySampler('random'): WHICH rows the PRNG / annealing schedule produces is not modelled (numpy's Mersenne twister, random.uniform); everything else is: parse_initial_states code-shaped incl. infer_vartype on raw states, the conversion between vartypes, label test, num_reads, the none/tile/random generators, truncation, from_samples_bqm (C07_infer_vartype_spec, C07_parse_initial_states_honest, C07_parse_initial_states_values_in_domain - every returned value lies in the model's domain given only that the DRAWN rows do -, C07_parse_initial_states_rejects_unknown_values, C07_identity_none_tile_exact, C07_identity_random_prefix), SimulatedAnnealingSampler's argument tests (C07_sa_validate_spec) and its energy bookkeeping on whatever spins the annealer ends in (C07_sa_search_agnostic_energy); all compared exactly on every returned set",
+           "future-backed sample sets: done-ness is an observed input of the model (a future's state is not computed); real pending Futures are only put below the non-blocking mixins (a composite that reads its child's answer would block for ever); SampleSet.change_vartype(inplace=False) is pinned by the translator and proved (C07_deferred_change_vartype_copy) but not run - nothing in scope calls it",
            "TruncateComposite / PolyTruncateComposite with sorted_by='energy': SampleSet.slice calls np.argsort with the default (unstable) kind - the source requests kind='stable' only in SampleSet.data(index=True), which nothing in scope uses - so the order among equal energies is deliberately NOT modelled; C07_truncate_any_ascending_order proves that every ascending ordering has the model's energy column and keeps only the child's pairs, which is exactly what the correspondence compares (energy column exactly, rows as a sub-multiset of the child's (energy,row) pairs)",
            "IdentitySampler's documented rejections (ValueError) are compared with the model's None; any other exception of a valid stack is a violation",
            "PolyScaleComposite with improper ranges: one-sided guarantees are proved (C07_normalize_one_sided), the two-sided range rule is REFUTED there (C07_normalize_improper_range_refuted: unattainable range, negative factor for an inverted range - energies stay correct); a zero bound is a ZeroDivisionError in the implementation, modelled as None and compared (C07_polyscale_call_raises)",
